@@ -90,12 +90,6 @@ func (t *vkTree) headerMsg(names ...string) *wire.MsgHeaders {
 
 // vkProcessRun runs the real processBlocks loop until it is idle (first
 // sleep with nothing to do) — one "processing step".
-// vkInterleave, when set, is called at the interleaving points that a property's source rewrite
-// (meta.json "rewrites") inserts into the code under test, e.g. between the block processor's
-// pop of the next block and its ProcessBlock call: the harness runs another unit there, which is
-// the interleaving of two goroutines at that statement boundary.
-var vkInterleave func(point string)
-
 func vkProcessRun(ctx context.Context, node *Node) error {
 	verifrt.OnSleep(func(d time.Duration) {
 		node.lock.Lock()
